@@ -144,7 +144,24 @@ func ConstraintClass(v cty.Value, c cty.Type) string {
 	return "k2"
 }
 
-type classWalk struct{ lossy bool }
+type classWalk struct {
+	lossy bool // some placeholder introduced by c is not reached on the wire, or mixed
+	mixed bool // the members of one collection resolve to different types
+}
+
+// WirePrediction returns, for a value v and a constraint c derived from
+// v.Type(), the type a decoder can reconstruct from what the codecs put on the
+// wire (the placeholder stays wherever it sits below a null, unknown or empty
+// part) and whether the members of some collection resolve to different types
+// (then no collection value of one element type can be rebuilt at all).
+// ConstraintClass(v, c) is k3 exactly when mixed is true or the returned type
+// differs from v.Type().
+func WirePrediction(v cty.Value, c cty.Type) (resolved cty.Type, mixed bool) {
+	v, _ = v.Unmark()
+	w := &classWalk{}
+	resolved = w.resolved(v, v.Type(), c, false)
+	return resolved, w.mixed
+}
 
 // hollow: nothing of the part's members reaches the wire.
 func hollow(v cty.Value) bool {
@@ -192,6 +209,7 @@ func (w *classWalk) resolved(v cty.Value, t, c cty.Type, below bool) cty.Type {
 				first = rt
 			} else if !rt.Equals(first) {
 				w.lossy = true
+				w.mixed = true
 			}
 			n++
 		}
